@@ -265,8 +265,10 @@ def rule_r4(chk, prog, effects):
         for c in calls_in(f):
             if call_name(c) == 'os.path.join' and c.args:
                 n += 1
+                from ..astutil import expand_locals
                 chk.check('C06.R4', f'tmpfiles.{q}', c,
-                          unparse(c.args[0]) == f'{tdname}.name',
+                          unparse(expand_locals(f, c.args[0])) ==
+                          f'{tdname}.name',
                           'a temporary path is not placed inside the '
                           'self-removing directory', loc=t.loc(c),
                           nontrivial=True)
